@@ -19,13 +19,14 @@
 #define MAXLEN  4096
 
 enum { CL_ADD_BETWEEN, CL_REMOVE_BETWEEN, CL_MATCH, CL_NOMATCH, CL_NEARMISS, CL_SHORT, CL_SEGFILTER,
-       CL_MULTI, CL_ZERO_OUT, CL_BIG, CL_DUPFILTER, CL_PARENT_FIRST, CL_HOLD, CL_PARTIALMASK, CL_REMOVED_WOULD_MATCH, CL_REJECTING_SINK, CL_LAZY_OUTPUT };
+       CL_MULTI, CL_ZERO_OUT, CL_BIG, CL_DUPFILTER, CL_PARENT_FIRST, CL_HOLD, CL_PARTIALMASK, CL_REMOVED_WOULD_MATCH, CL_REJECTING_SINK, CL_LAZY_OUTPUT, CL_FAULT, CL_FAULT_MISSED };
 static const char *const class_names[] = {
     "output_added_between_sections", "output_removed_between_sections", "some_output_matched",
     "some_output_did_not_match", "one_masked_bit_off", "section_shorter_than_filter",
     "segment_boundary_inside_filtered_octets", "section_to_several_outputs", "section_with_no_output",
     "section_ge_1024", "two_outputs_same_filter", "split_released_before_outputs", "sink_holds_outputs",
-    "mask_with_partial_octet", "removed_output_would_have_matched", "sink_refusing_flow_definitions", "output_connected_from_need_output_event", NULL };
+    "mask_with_partial_octet", "removed_output_would_have_matched", "sink_refusing_flow_definitions", "output_connected_from_need_output_event",
+    "allocation_refused_inside_the_pipe", "matching_output_missed_the_section_because_of_a_refused_allocation", NULL };
 
 struct out {
     bool live, used;
@@ -45,7 +46,7 @@ struct ctx {
     uint32_t classes; uint64_t hash;
     unsigned seq;
     int nsections; bool any_match, any_nomatch;
-    bool hold;
+    bool hold, faultmode;
 };
 
 #define R(...) do { if (c->render) vp_render(c->rep, __VA_ARGS__); } while (0)
@@ -227,7 +228,19 @@ static void send_section(struct ctx *c)
     for (int i = 0; i < c->nout; i++) before[i] = c->out[i].sink.nrec;
     if (!c->nlive) CLS(CL_ZERO_OUT);
 
+    /* allocation faults (engine/faultmalloc.h): in a share of the cases one allocation inside the pipe is refused while it handles
+     * the section.  An output may then miss the section (the pipe reports the error); what an output does receive is still the
+     * whole section, once */
+    bool refused = false;
+#ifdef VP_FAULTMALLOC_H
+    unsigned nth = (c->faultmode && (c->hash & 1)) ? 1 + (unsigned)(c->hash >> 1) % 6 : 0;
+    vp_fault_arm(nth);
+#endif
     upipe_input(c->split, uref, NULL);
+#ifdef VP_FAULTMALLOC_H
+    refused = vp_fault_disarm() > 0 && nth;
+    if (refused) { CLS(CL_FAULT); R("      (allocation %u inside the pipe was refused)\n", nth); }
+#endif
 
     int got = 0;
     for (int i = 0; i < c->nout && !c->ret; i++) {
@@ -245,6 +258,7 @@ static void send_section(struct ctx *c)
         for (int k = 0; k < ncuts; k++) if (cuts[k] < (size_t)o->fsize) CLS(CL_SEGFILTER);
         R("      output %d: reference %s, received %d\n", i, want == 1 ? "selects" : want == 0 ? "rejects" : "open", d);
         if (d > 1) FAIL("C16/split/duplicate", "section %d was delivered %d times to output %d", c->nsections, d, i);
+        else if (want == 1 && d == 0 && refused) CLS(CL_FAULT_MISSED);
         else if (want == 1 && d == 0) FAIL("C16/split/missed", "section %d matches filter/mask of output %d (size %d) but was not delivered", c->nsections, i, o->fsize);
         else if (want == 0 && d == 1) FAIL("C16/split/unwanted", "section %d does not match filter/mask of output %d (size %d, section %d octets) but was delivered", c->nsections, i, o->fsize, len);
         if (d == 1 && !c->ret) {
@@ -273,6 +287,7 @@ static int run(const uint8_t *tape, size_t len, struct vp_report *rep, unsigned 
     c->hold = (b0 >> 4) & 1;
     bool parent_first = (b0 >> 5) & 1;
     int mgrcfg = (b0 >> 6) & 3;
+    c->faultmode = ((b0 * 167u) >> 3) % 4 == 1;      /* (a quarter of the configurations; every bit of b0 is taken) */
     static const int depth[4] = { 0, 0, 2, 8 }, prep[4] = { 0, 8, 0, 32 };
     if (fix_mem_init_full(&c->fm, depth[mgrcfg], prep[mgrcfg], 0, 0, 0) != 0) return vp_internal(rep, "fix_mem_init");
     c->hash = vp_hash_mix(c->hash, b0);
